@@ -99,7 +99,12 @@ def check_ledger(res, name, src):
                     # has_account: every account a directive names (a pad names two), decided here with Beancount's own getter
                     (" has_account('Equity:Opening')", dict(_pred=lambda e: any(re.search('Equity:Opening', a) for a in getters.get_entry_accounts(e)))),
                     (" has_account('Bank')", dict(_pred=lambda e: any(re.search('Bank', a) for a in getters.get_entry_accounts(e)))),
-                    (" has_account('Expenses:Food')", dict(_pred=lambda e: any(re.search('Expenses:Food', a) for a in getters.get_entry_accounts(e))))]:
+                    (" has_account('Expenses:Food')", dict(_pred=lambda e: any(re.search('Expenses:Food', a) for a in getters.get_entry_accounts(e)))),
+                    # filter expressions that are not booleans select by truth value, as WHERE does (a non-empty set / string, a non-zero number)
+                    (' tags', dict(_pred=lambda e: bool(getattr(e, 'tags', None)))), (' links', dict(_pred=lambda e: bool(getattr(e, 'links', None)))),
+                    (' payee', dict(_pred=lambda e: bool(getattr(e, 'payee', None)))), (' year', dict(_pred=lambda e: True)),
+                    (" meta('ref')", dict(_pred=lambda e: bool((e.meta or {}).get('ref')))), (' narration', dict(_pred=lambda e: bool(getattr(e, 'narration', None)))),
+                    (' tags OPEN ON 2020-01-03', dict(open=D(2020, 1, 3), _pred=lambda e: bool(getattr(e, 'tags', None))))]:
         kw = dict(kw)
         pred = kw.pop('_pred', None)
         stmt = 'PRINT' + (f' FROM{frm}' if frm else '')
